@@ -15,7 +15,13 @@ import (
 	open_api_models "github.com/prometheus/alertmanager/api/v2/models"
 	alert_ops "github.com/prometheus/alertmanager/api/v2/restapi/operations/alert"
 	"github.com/prometheus/alertmanager/config"
+	amcommoncfg "github.com/prometheus/alertmanager/config/common"
+	"github.com/prometheus/alertmanager/dispatch"
+	"github.com/prometheus/alertmanager/eventrecorder"
+	"github.com/prometheus/alertmanager/marker"
+	"github.com/prometheus/alertmanager/pkg/labels"
 	"github.com/prometheus/alertmanager/provider"
+	"github.com/prometheus/alertmanager/provider/mem"
 	"github.com/prometheus/alertmanager/types"
 )
 
@@ -130,5 +136,163 @@ func VerifC13_PostDefaults() {
 		vfAssert("updated-at-receive-time", got.UpdatedAt.Equal(now))
 		_, hasEmpty := got.Labels["empty"]
 		vfAssert("empty-labels-removed", !hasEmpty && len(got.Labels) == 1)
+	}
+}
+
+// VerifC13_GetAlerts: POST then GET through the real handlers over the real in-memory
+// provider and a real routing tree. 2 (quick) / 3 (thorough) alerts are submitted with
+// explicit or defaulted end times, time passes, and GET /api/v2/alerts is asked with
+// every combination of the active / silenced / inhibited switches. The answer lists
+// exactly the stored alerts whose end has not passed and whose suppression status
+// passes the switches, each once, in fingerprint order, with the stored times, the
+// receivers the routing tree selects and the status the silencer / inhibitor report.
+//
+//vf:quick unwind=16 decisions=400 paths=400000
+//vf:thorough unwind=16 decisions=600 paths=4000000
+//vf:expect reach=listed reach=expired-hidden reach=filtered-by-status
+func VerifC13_GetAlerts() {
+	ctx, cancel := context.WithCancel(context.Background())
+	defer cancel()
+	prov, err := mem.NewAlerts(ctx, 100000*time.Hour, 0, nil, promslog.NewNopLogger(), eventrecorder.Recorder{}, prometheus.NewRegistry(), nil)
+	if err != nil {
+		panic(err)
+	}
+	mm := func(n, v string) *labels.Matcher {
+		x, err := labels.NewMatcher(labels.MatchEqual, n, v)
+		if err != nil {
+			panic(err)
+		}
+		return x
+	}
+	route := dispatch.NewRoute(&config.Route{
+		Receiver: "default",
+		Routes: []*config.Route{
+			{Receiver: "team-a", Matchers: amcommoncfg.Matchers{mm("team", "a")}, Continue: true},
+			{Receiver: "ops", Matchers: amcommoncfg.Matchers{mm("sev", "high")}},
+		},
+	}, nil)
+	rt := 5 * time.Minute
+	api := &API{
+		alerts:             prov,
+		logger:             promslog.NewNopLogger(),
+		m:                  metrics.NewAlerts(prometheus.NewRegistry()),
+		alertmanagerConfig: &config.Config{Global: &config.GlobalConfig{ResolveTimeout: model.Duration(rt)}},
+		route:              route,
+		// what the silencer and the inhibitor do: report through the marker in the context
+		setAlertStatus: func(ctx context.Context, lset model.LabelSet) {
+			m, ok := marker.FromContext(ctx)
+			if !ok {
+				return
+			}
+			if lset["sil"] == "1" {
+				m.SetSilenced(lset.Fingerprint(), []string{"silence-1"})
+			} else {
+				m.SetSilenced(lset.Fingerprint(), nil)
+			}
+			if lset["inh"] == "1" {
+				m.SetInhibited(lset.Fingerprint(), []string{"source-1"})
+			} else {
+				m.SetInhibited(lset.Fingerprint(), nil)
+			}
+		},
+	}
+	pool := []open_api_models.LabelSet{
+		{"alertname": "A", "team": "a", "sev": "high"},
+		{"alertname": "B", "team": "b", "sil": "1"},
+		{"alertname": "C", "team": "a", "inh": "1", "sil": "1"},
+	}
+	wantRecv := [][]string{{"team-a", "ops"}, {"default"}, {"team-a"}}
+	n := 2 + vfTier()
+	t0 := vfNow()
+	type sub struct {
+		start    time.Time
+		end      time.Time
+		sil, inh bool
+		fp       string
+	}
+	subs := make([]sub, n)
+	var batch open_api_models.PostableAlerts
+	for i := 0; i < n; i++ {
+		pa := &open_api_models.PostableAlert{}
+		pa.Labels = pool[i]
+		if vfBool("explicitEnd") {
+			// an end without a start: the start defaults to the end
+			subs[i].end = t0.Add(vfSeconds("endIn", 1, 3600))
+			subs[i].start = subs[i].end
+			pa.EndsAt = strfmt.DateTime(subs[i].end)
+		} else {
+			subs[i].start, subs[i].end = t0, t0.Add(rt)
+		}
+		subs[i].sil, subs[i].inh = pool[i]["sil"] == "1", pool[i]["inh"] == "1"
+		ls := model.LabelSet{}
+		for k, v := range pool[i] {
+			ls[model.LabelName(k)] = model.LabelValue(v)
+		}
+		subs[i].fp = ls.Fingerprint().String()
+		batch = append(batch, pa)
+	}
+	req := &http.Request{Method: "POST", URL: &url.URL{Path: "/api/v2/alerts"}}
+	_, isOK := api.postAlertsHandler(alert_ops.PostAlertsParams{HTTPRequest: req, Alerts: batch}).(*alert_ops.PostAlertsOK)
+	vfAssert("post-ok", isOK)
+
+	vfAdvance(vfSeconds("later", 0, 2*3600))
+	now := vfNow()
+	for i := range subs {
+		vfAssume(!subs[i].end.Equal(now)) // the single instant end == now is left open
+	}
+	active, silenced, inhibited := vfBool("active"), vfBool("silenced"), vfBool("inhibited")
+	resp := api.getAlertsHandler(alert_ops.GetAlertsParams{
+		HTTPRequest: &http.Request{Method: "GET", URL: &url.URL{Path: "/api/v2/alerts"}},
+		Active:      &active, Silenced: &silenced, Inhibited: &inhibited,
+	})
+	ok, isGetOK := resp.(*alert_ops.GetAlertsOK)
+	vfAssert("get-ok", isGetOK)
+	if !isGetOK {
+		return
+	}
+	got := ok.Payload
+	want := 0
+	for i, s := range subs {
+		suppressed := s.sil || s.inh
+		show := s.end.After(now) && (active || suppressed) && (silenced || !s.sil) && (inhibited || !s.inh)
+		var found *open_api_models.GettableAlert
+		cnt := 0
+		for _, g := range got {
+			if *g.Fingerprint == s.fp {
+				found = g
+				cnt++
+			}
+		}
+		if !show {
+			vfAssert("hidden-alert-not-listed", cnt == 0)
+			if !s.end.After(now) {
+				vfReach("expired-hidden")
+			} else {
+				vfReach("filtered-by-status")
+			}
+			continue
+		}
+		want++
+		vfAssert("listed-exactly-once", cnt == 1)
+		if found == nil {
+			continue
+		}
+		vfReach("listed")
+		vfAssert("stored-times", time.Time(*found.EndsAt).Equal(s.end) && time.Time(*found.StartsAt).Equal(s.start) && time.Time(*found.UpdatedAt).Equal(t0))
+		vfAssert("receivers-are-what-routing-selects", len(found.Receivers) == len(wantRecv[i]))
+		for k := range wantRecv[i] {
+			if k < len(found.Receivers) {
+				vfAssert("receivers-are-what-routing-selects", *found.Receivers[k].Name == wantRecv[i][k])
+			}
+		}
+		wantState := "active"
+		if suppressed {
+			wantState = "suppressed"
+		}
+		vfAssert("status-is-current-suppression", *found.Status.State == wantState && (len(found.Status.SilencedBy) == 1) == s.sil && (len(found.Status.InhibitedBy) == 1) == s.inh)
+	}
+	vfAssert("nothing-else-listed", len(got) == want)
+	for k := 1; k < len(got); k++ {
+		vfAssert("fingerprint-order", *got[k-1].Fingerprint < *got[k].Fingerprint)
 	}
 }
